@@ -34,7 +34,11 @@ type Cell struct {
 }
 
 type Heap struct {
-	Cells []*Cell
+	// SpareCap: an empty slice that still owns a backing array (x[:0], make(T, 0, k)) is recorded as a slice of
+	// length 0 at that array's location instead of as a plain empty slice, so that two values sharing such
+	// an array (their next appends land in the same slot) are seen to share a location.
+	SpareCap bool
+	Cells    []*Cell
 	index map[uintptr]Loc // pointer identity -> location (messages, arrays, maps share one space; the kinds never collide at one address with different meaning except struct/first-field, which we key by kind too)
 	keys  map[string]Loc
 }
@@ -95,6 +99,13 @@ func (h *Heap) val(v reflect.Value) Val {
 			return Val{K: 'n'}
 		}
 		if v.Len() == 0 {
+			if h.SpareCap && v.Cap() > 0 {
+				l, seen := h.loc("arr", v.Pointer())
+				if !seen {
+					h.Cells[l] = &Cell{K: 'A'}
+				}
+				return Val{K: 'l', L: l, Len: 0}
+			}
 			return Val{K: 'e'}
 		}
 		l, seen := h.loc("arr", v.Pointer())
